@@ -108,8 +108,10 @@ opened. -/
 
 structure Sess where
   docs : Docs
-  /-- `opened_files` (file URIs; a non-file document is never recorded) -/
-  opened : List Nat
+  /-- `opened_files` (file URIs; a non-file document is never recorded).  The table is keyed by the URL *string*, the
+  document store by the decoded path: `(path, spelling)` - two spellings of one file's URI (`a.gleam`, `%61.gleam`) are two
+  keys here and one document there -/
+  opened : List (Nat × Nat)
 deriving Repr, DecidableEq, Inhabited
 
 inductive Disk where
@@ -120,35 +122,36 @@ inductive Disk where
 deriving Repr, DecidableEq, Inhabited
 
 inductive Ev where
-  | msg (m : Msg)
-  /-- one `FileEvent`: `deleted` = its type is DELETED (else CREATED or CHANGED) -/
-  | watched (uri : Uri) (deleted : Bool) (disk : Disk)
+  /-- a message whose document URI is written in spelling `sp` -/
+  | msg (sp : Nat) (m : Msg)
+  /-- one `FileEvent` (URI in spelling `sp`): `deleted` = its type is DELETED (else CREATED or CHANGED) -/
+  | watched (sp : Nat) (uri : Uri) (deleted : Bool) (disk : Disk)
   | loaded (u : Nat) (text : List Char)
 deriving Repr, DecidableEq, Inhabited
 
 def sstep (s : Sess) : Ev → Sess × Out
-  | .msg m =>
+  | .msg sp m =>
     let r := step s.docs m
     let opened := match m with
-      | .didOpen (.file u) text => if u8sum text > maxFileLen then s.opened else u :: s.opened.filter (fun x => x != u)
-      | .didClose (.file u) => s.opened.filter (fun x => x != u)
+      | .didOpen (.file u) text => if u8sum text > maxFileLen then s.opened else (u, sp) :: s.opened.filter (fun x => x != (u, sp))
+      | .didClose (.file u) => s.opened.filter (fun x => x != (u, sp))
       | .didChange (.file u) changes =>
         -- "Clear file states to minimize pollution of the broken state": a document forgotten after an edit that
         -- cannot be applied is no longer recorded as open either
         match lookup s.docs u with
-        | some t => if applyChanges t changes = some none then s.opened.filter (fun x => x != u) else s.opened
+        | some t => if applyChanges t changes = some none then s.opened.filter (fun x => x != (u, sp)) else s.opened
         | none => s.opened
       | _ => s.opened
     ({ docs := r.1, opened := opened }, r.2)
-  | .watched (.file u) deleted disk =>
-    if s.opened.contains u then (s, .none)
+  | .watched sp (.file u) deleted disk =>
+    if s.opened.contains (u, sp) then (s, .none)
     else if deleted then ({ s with docs := remove s.docs u }, .none)
     else
       match disk with
       | .regular text => ({ s with docs := set s.docs u (stripCR text) }, .none)
       | .absent => ({ s with docs := remove s.docs u }, .none)
       | .unreadable => (s, .none)
-  | .watched (.other _) _ _ => (s, .none)
+  | .watched _ (.other _) _ _ => (s, .none)
   | .loaded u text => ({ s with docs := set s.docs u (stripCR text) }, .none)
 
 /-- run a session; stops at a crash -/
